@@ -315,7 +315,7 @@ Definition convert_data (c : conv) (u : universe) (v : value) (var : xvar) : gre
 
 (* convert_tokens *)
 Definition convert_tokens (c : conv) (u : universe) (v : value) (var : xvar) : gres (list wevent) :=
-  if py_truthy v || v_nillable var then
+  if py_truthy v || (v_nillable var && negb (v_list_element var)) then
     if py_truthy v then
       match v with
       | VList _ (((VList _ _) :: _) as l) => concatM (fun x => convert_element c u x var) l
